@@ -1,4 +1,7 @@
 // Defect (C04): systemd_restart with dry=true issues no D-Bus call but still increments the oomd.restarts counter.
+#ifndef DEMO_TMP
+#define DEMO_TMP "/tmp/oomd_demo"   /* scratch directory; replay/replay.py passes -DDEMO_TMP=... */
+#endif
 #include <iostream>
 #include "oomd/OomdContext.h"
 #include "oomd/PluginConstructionContext.h"
@@ -6,9 +9,9 @@
 #include "oomd/plugins/systemd/SystemdRestart.h"
 using namespace Oomd;
 int main() {
-  auto stats = Stats::get_for_unittest("/tmp/w/d04/stats.sock");    // not the singleton...
+  auto stats = Stats::get_for_unittest(DEMO_TMP "/stats.sock");    // not the singleton...
   (void)stats;
-  if (!Stats::init("/tmp/w/d04/stats_singleton.sock")) { std::cout << "cannot init stats\n"; return 2; }
+  if (!Stats::init(DEMO_TMP "/stats_singleton.sock")) { std::cout << "cannot init stats\n"; return 2; }
   SystemdRestart<> plugin;
   Engine::PluginArgs args;
   args["service"] = "some.service"; args["dry"] = "true"; args["post_action_delay"] = "0";
